@@ -436,6 +436,13 @@ let emit tier cfgs seed =
     let dexpr = function DFalse -> "false" | DTrue -> "true" | DAsk u -> sp "z::dtor_ok<%s>" (cxx u) in
     obl "corr" "is_destructible (library)" key (sp "etl::is_destructible_v<%s> == %s" r (dexpr (is_destructible_q k t)));
     obl "specval" "is_destructible (library)" key (sp "std::is_destructible_v<%s> == %s" r (dexpr (std_is_destructible_q t)));
+    (* ---- the hypotheses of C15_composition_traits / C15_destructible about the compilers' intrinsics *)
+    if not (referenceable t) then
+      obl "prop" "hypothesis: intrinsics are false on non-referenceable types" key
+        (* (through the trait templates: clang rejects a qualified function type named directly in an intrinsic) *)
+        (sp "!etl::is_constructible_v<%s> && !etl::is_constructible_v<%s, %s> && !etl::is_constructible_v<%s, int> && !etl::is_assignable_v<%s, %s> && !etl::is_assignable_v<%s, int> && !etl::is_trivially_constructible_v<%s> && !etl::is_trivially_assignable_v<%s, %s> && !etl::is_nothrow_constructible_v<%s> && !etl::is_nothrow_assignable_v<%s, %s> && !std::is_constructible_v<%s, %s> && !std::is_assignable_v<%s, %s>" r r r r r r r r r r r r r r r r r);
+    if std_is_scalar t then
+      obl "prop" "hypothesis: pseudo-destructor call on a scalar is well-formed" key (sp "z::dtor_ok<%s>" r);
     (* the recorded findings, pinned to their exact wrong behaviour (a finding suppresses the comparison with
        std only; any OTHER behaviour of these facilities still fails here) *)
     obl "corr" "recorded: is_trivially_copy_constructible" key
@@ -460,8 +467,8 @@ let emit tier cfgs seed =
                  Union (List.nth union_zoo 1); MemPtr (c_data, int_); MemPtr (c_data, fn Void []);
                  Arith ALDouble; Arith AChar8; Arith AChar16; Arith ASChar; Arith AUShort; Arith ALong;
                  Arith AULLong ] in
-    (* quick tier: two thirds of the core set, rotating with the seed (all ordered pairs of the rest) *)
-    let want = if tier = "quick" then List.filteri (fun i _ -> i < 6 || i mod 3 <> seed mod 3) want else want in
+    (* quick tier: about half of the core set, rotating with the seed (all ordered pairs of the rest) *)
+    let want = if tier = "quick" then List.filteri (fun i _ -> i < 6 || i mod 2 = seed mod 2) want else want in
     List.filter (fun t -> Hashtbl.mem idx (cxx t)) want in
   let pairs = List.concat_map (fun a -> List.map (fun b -> (a, b)) pair_core) pair_core in
   List.iter (fun (a, b) ->
@@ -497,6 +504,8 @@ let emit tier cfgs seed =
     obl "prop" "is_invocable_r" key (sp "etl::is_invocable_r_v<%s, %s> == std::is_invocable_r_v<%s, %s>" ra rb ra rb);
     obl "prop" "invoke_result" key (sp "z::invoke_result_agrees<%s, %s>" ra rb);
     List.iter (fun c -> obl "prop" ("concept " ^ c) key (sp "etl::%s<%s, %s> == std::%s<%s, %s>" c ra rb c ra rb)) prop_concepts_binary;
+    if std_is_void b then
+      obl "prop" "hypothesis: void(To) with To = void cannot be called with an argument" key (sp "!z::call_ok<%s, %s> && !z::ncall_ok<%s, %s>" ra rb ra rb);
     let cexpr = function CFalse -> "false" | CTrue -> "true" | CAsk -> sp "z::call_ok<%s, %s>" ra rb in
     obl "corr" "is_convertible (library)" key (sp "etl::is_convertible_v<%s, %s> == %s" ra rb (cexpr (is_convertible_q a b)));
     obl "specval" "is_convertible (library)" key (sp "std::is_convertible_v<%s, %s> == %s" ra rb (cexpr (std_is_convertible_q a b)));
